@@ -153,7 +153,11 @@ func genQuery(r *Rng, m *qMeta) []string {
 		case 42:
 			return []string{fmt.Sprintf("UPDATE a SET s = REGEXP_REPLACE(s, '[aeiou]', STRING(id %% 3)), v = IFNULL(v, 0) + LEN(s) WHERE %s;", genCond(r, "", G)), "SELECT * FROM a;"}
 		case 27:
-			return []string{"SELECT id, w FROM a JOIN b USING (id, g);", "SELECT id, g, w FROM a NATURAL JOIN b;"}
+			// the columns a join condition names come first in SELECT *, in the order given
+			dir := r.PickS("", "", "LEFT ", "RIGHT ", "FULL ")
+			return []string{"SELECT id, w FROM a JOIN b USING (id, g);", "SELECT id, g, w FROM a NATURAL JOIN b;",
+				fmt.Sprintf("SELECT * FROM a %sJOIN b USING (id, g);", dir), fmt.Sprintf("SELECT * FROM a NATURAL %sJOIN b;", dir),
+				"SELECT * FROM a JOIN a x USING (s, g, id, v) WHERE id % 3 = 0;", "SELECT * FROM b NATURAL JOIN a ORDER BY id LIMIT 5;"}
 		case 28:
 			if !small && m.NB > 12 {
 				continue
